@@ -9,10 +9,11 @@ a2) per-zone xor index: build_for_field, contains_in_zone and zones_maybe_contai
 a3) per-field xor filter: FieldXorFilter::new and contains hash with the same single function.
 a4) RangePruner: Gt/Gte probe zones_overlapping_ge(exclusive/inclusive), Lt/Lte probe zones_overlapping_le(exclusive/inclusive).
 b) TemporalPruner: per-zone overlap guards are Gt -> max_ts > ts, Gte -> max_ts >= ts, Lt -> min_ts < ts, Lte -> min_ts <= ts (op x field table); the Eq path keeps a zone only via contains_ts.
+c1) context index completeness: ZoneWriter::write_all inserts (event type, context id, zone id) into the ZoneIndex for every event of every zone plan — no iteration of the two loops skips the insert.
 Noted, not armed: index-build errors in ZoneWriter::write_all are logged while the catalog is written from the plan; temporal pruner skips a zone whose temporal index fails to load.
 """
-FLOOR = 5
-REQUIRED = ["C08.a1", "C08.a2", "C08.a3", "C08.a4", "C08.b"]
+FLOOR = 6
+REQUIRED = ["C08.a1", "C08.a2", "C08.a3", "C08.a4", "C08.b", "C08.c1"]
 
 
 def family(F, b):
@@ -159,6 +160,31 @@ def run(ctx):
             raise AnchorMissing("op -> zones_overlapping_* table")
         return bad
     ctx.run("C08.a4", "K6 TABLE", "RangePruner::apply_surf_only", "range operators probe the correct side with the correct inclusiveness", a4)
+
+    def c1(inst):
+        b = F.fn("ZoneWriter::write_all")
+        ins = one(b, r"ZoneIndex::insert$")
+        loops = [c for c in b.find_calls(r"Iterator>::next$") if b.can_reach(c.bb, ins.bb) and b.can_reach(ins.bb, c.bb)]
+        if len(loops) < 2:
+            raise AnchorMissing("two nested loops around ZoneIndex::insert (found %d)" % len(loops))
+        inst.sites = [sp(b, ins.bb)] + [sp(b, c.bb) for c in loops]
+        bad = []
+        # innermost loop: the one whose Some-body is smallest
+        def body_of(nx):
+            return set(b.reach(0, src_edges=variant_edge(b, nx, "Some"), cut_blocks=[nx.bb]))
+        inner = min(loops, key=lambda c: len(body_of(c)))
+        some = variant_edge(b, inner, "Some")
+        seen = b.reach(0, src_edges=some, cut_blocks=[ins.bb])
+        if inner.bb in seen:
+            bad.append(("zone-index-skips-event", "an event of a zone plan can be skipped when the context index is built: a context whose rows continue into a further zone is not listed for that zone", witness_path(b, seen, inner.bb)))
+        # inserted triple: the context comes from the inner loop's event, the zone id from the outer loop's plan
+        outer = max(loops, key=lambda c: len(body_of(c)))
+        if inner.dest[0] not in wide_all(b, ins.args[2], depth=30):
+            bad.append(("zone-index-key", "the context recorded in the zone index does not come from the iterated event", None))
+        if outer.dest[0] not in wide_all(b, ins.args[3], depth=30):
+            bad.append(("zone-index-zone", "the zone id recorded in the zone index does not come from the iterated zone plan", None))
+        return bad
+    ctx.run("C08.c1", "K9 LOOP", "ZoneWriter::write_all (context index)", "every (context, zone) pair that holds a row is listed in the zone index", c1)
 
     ctx.note("ZoneWriter::write_all logs index-build errors and writes the catalog from the plan (listed-but-missing index); not armed: needs a build fault to manifest")
     ctx.note("TemporalPruner drops a zone whose per-zone temporal index fails to load, and returns Some(empty) when the timestamp calendar is missing; not armed (fault clause)")
